@@ -325,7 +325,7 @@ end tether
 
 /-- `x1 y1 x2 y2` are `floor` of the processed tether ends, `w` the half window, `h` the image height:
     the arguments `(xmin, xmax, ymin, ymax)` handed to `crop_by_pixels`, or `ValueError`. -/
-def kymoWindow (x1 y1 x2 y2 w h : Int) : Except Err (Int × Int × Int × Int) :=
+def kymoWindowUnfixed (x1 y1 x2 y2 w h : Int) : Except Err (Int × Int × Int × Int) :=
   if y1 ≠ y2 then .error .value
   else if w < 0 then .error .value
   else
@@ -333,6 +333,17 @@ def kymoWindow (x1 y1 x2 y2 w h : Int) : Except Err (Int × Int × Int × Int) :
     let ymax := y2 + w + 1
     if ymin < 0 ∨ ymax > h then .error .value
     else .ok (x1, x2 + 1, ymin, ymax)
+
+/-- the same after the repair of finding F20 (`/repo` commit "clamp the left edge of the tether window"):
+    `xmin = max(floor(x1), 0)`. -/
+def kymoWindow (x1 y1 x2 y2 w h : Int) : Except Err (Int × Int × Int × Int) :=
+  if y1 ≠ y2 then .error .value
+  else if w < 0 then .error .value
+  else
+    let ymin := y1 - w
+    let ymax := y2 + w + 1
+    if ymin < 0 ∨ ymax > h then .error .value
+    else .ok (max x1 0, x2 + 1, ymin, ymax)
 
 /-- All consecutive differences equal the first one (`np.all(np.diff(x) == np.diff(x)[0])`). -/
 def constDiffs : List Int → Bool
@@ -350,6 +361,11 @@ def kymoTiming (ranges : List (Int × Int)) : Except Err Unit :=
 /-- `to_kymo` as far as indexing goes: the stack whose frames/ROI give the kymograph's pixels. -/
 def Stack.kymoStack (s : Stack) (x1 y1 x2 y2 w : Int) : Except Err Stack := do
   let (a, b, c, d) ← kymoWindow x1 y1 x2 y2 w s.roi.height
+  s.cropPixels (some a) (some b) (some c) (some d)
+
+/-- the pinned code (finding F20): the negative `xmin` wraps around in `crop_by_pixels` -/
+def Stack.kymoStackUnfixed (s : Stack) (x1 y1 x2 y2 w : Int) : Except Err Stack := do
+  let (a, b, c, d) ← kymoWindowUnfixed x1 y1 x2 y2 w s.roi.height
   s.cropPixels (some a) (some b) (some c) (some d)
 
 /-! ### protocol -/
